@@ -1,6 +1,10 @@
 //! E-unusedvar (two-phase, tree level): text (code points) -> GoldLexer::lex -> parse_gold ->
 //! the REAL UnusedVarAnalyzer driven the way ProjectManager::analyze_ast drives it
 //! (AstWalker::<dyn IAnalyzer>::new(true), register, run(&ast), append_diagnostics).
+//! The diagnostics reported are those of the RESPONSE: the text is also written to a scratch workspace and
+//! ProjectManager::generate_document_diagnostic_report is asked; its items of class U and D are the result. When the
+//! analyzer driven directly gives another list the result carries a trailing "!DIRECT[..]" (never seen on the
+//! unchanged tree); when the manager answers with an error (unparsable files) the direct list is the result.
 //! result: <tree dump>#<sorted canonical diagnostics>
 //!   diagnostic = sev:class:sl:sc:el:ec:keycps   sev 2 = WARNING, 1 = ERROR;
 //!   class U = "Unused var: <key>", D = "Var name already declared" (key "-"), ? = anything else.
@@ -65,12 +69,55 @@ pub fn analyze(ast: &Arc<dyn IAstNode>) -> Vec<String> {
     out
 }
 
+#[derive(Debug, Clone)]
+struct SilentLogger;
+impl crate::utils::ILoggerV2 for SilentLogger {
+    fn log_error(&self, _msg: &str) {}
+    fn log_warning(&self, _msg: &str) {}
+    fn log_info(&self, _msg: &str) {}
+    fn log(&self, _log_type: crate::utils::LogType, _level: crate::utils::LogLevel, _msg: &str) {}
+    fn clone_box(&self) -> Box<dyn crate::utils::ILoggerV2> { Box::new(SilentLogger) }
+    fn clone_box_with_appended_prefix(&self, _prefix: &str) -> Box<dyn crate::utils::ILoggerV2> { Box::new(SilentLogger) }
+    fn append_prefix(&mut self, _prefix: &str) {}
+}
+
+static COUNTER: std::sync::atomic::AtomicUsize = std::sync::atomic::AtomicUsize::new(0);
+
+/// the U and D items of the diagnostics response for `text` alone in a scratch workspace; None when the manager errs
+fn through_manager(text: &str) -> Option<Vec<String>> {
+    let n = COUNTER.fetch_add(1, std::sync::atomic::Ordering::SeqCst);
+    let dir = std::env::temp_dir().join(format!("goldverif-unusedvar-{}-{}", std::process::id(), n));
+    let _ = std::fs::remove_dir_all(&dir);
+    std::fs::create_dir_all(&dir).ok()?;
+    let r = (|| {
+        let file = dir.join("aCase.god");
+        std::fs::write(&file, text.as_bytes()).ok()?;
+        let root_uri = lsp_types::Url::from_file_path(&dir).ok()?;
+        let uri = lsp_types::Url::from_file_path(&file).ok()?;
+        let mut pm = crate::manager::ProjectManager::new(Some(root_uri), Box::new(SilentLogger)).ok()?;
+        pm.index_files();
+        let rep = pm.generate_document_diagnostic_report(&uri).ok()?;
+        let mut v: Vec<String> = rep.full_document_diagnostic_report.items.iter()
+            .filter(|d| d.message.starts_with("Unused var: ") || d.message == "Var name already declared")
+            .map(canon).collect();
+        v.sort();
+        Some(v)
+    })();
+    let _ = std::fs::remove_dir_all(&dir);
+    r
+}
+
 pub fn run_case(line: &str) -> String {
     let text = cps_to_string(line.trim());
     let mut lexer = GoldLexer::new();
     let (toks, _errs) = lexer.lex(&text);
     let ((_rest, root), _diags) = parse_gold(&toks);
-    let out = analyze(&root);
+    let direct = analyze(&root);
     let flag = if pos_assumption_broken(root.as_ref()) { "!POS" } else { "" };
-    format!("{}#{}{}", dump_tree(root.as_ref()), out.join(";"), flag)
+    let tree = dump_tree(root.as_ref());
+    match crate::common::guarded_opt(|| through_manager(&text)) {
+        Some(resp) if resp != direct => format!("{}#{}{}!DIRECT[{}]", tree, resp.join(";"), flag, direct.join(";")),
+        Some(resp) => format!("{}#{}{}", tree, resp.join(";"), flag),
+        None => format!("{}#{}{}", tree, direct.join(";"), flag),
+    }
 }
